@@ -34,7 +34,7 @@ func c08configs() []c08cfg {
 				Functions: []KV{{"f1", "pk.FnStr"}, {"f2", "ab.FnInt"}, {"f3", `"fx/a".FnE`}}},
 			Params: []Param{{"p3", "%f3()%%p1%"}, {"p1", 1}, {"p2", "%f1()%-%f2()%-%p1%"}, {"p4", `%todo("later")%`}, {"p5", `%env("C08_X", "d")%:%envInt("C08_Y", 3)%`}, {"p6", nil}},
 			Services: []Service{
-				{Name: "s3", Constructor: P("ab/sub.New"), Args: []any{"@s1", "%p2%", "!value a.Var"}, Fields: []KV{{"Fz", "!value \"fx/b/pkg\".Var"}, {"Fa", "@s1"}, {"Fm", "%p3%"}, {"Fb", "!value \"fx/errors\".Const"}, {"Fc", "!value \"fx/os\".Var"}}, Tags: []Tag{{Name: "tg"}}},
+				{Name: "s3", Constructor: P("ab/sub.New"), Args: []any{"@s1", "%p2%", "!value a.Var"}, Fields: []KV{{"Fz", "!value \"fx/b/pkg\".Var"}, {"Fa", "@s1"}, {"Fm", "%p3%"}, {"Fb", "!value \"fx/errors\".Const"}, {"Fc", "!value \"fx/os\".Var"}}, Tags: []Tag{{Name: "tg", Priority: P(100)}, {Name: "other", Priority: P(-1)}, {Name: "third"}}},
 				{Name: "s1", Constructor: P("a.New"), Getter: P("GetS1"), Type: P("*zz.Obj")},
 				{Name: "s2", Value: P("&ab.Obj{}"), Fields: []KV{{"F2", 2}, {"F1", "!tagged tg"}}},
 				{Name: "s4", Constructor: P("pk.v2.New"), Args: []any{"!value pk.v2.x.Var", "!value pk-v2.Const", "!value pk.v2/sub.Var"}},
@@ -49,6 +49,8 @@ func c08configs() []c08cfg {
 	var out []c08cfg
 	out = append(out, c08cfg{id: "valid-rich", files: one(rich())})
 	out = append(out, c08cfg{id: "valid-rich-stub", files: one(rich()), flags: []string{"--stub"}})
+	// nothing in meta: package, container type and constructor are the documented defaults whatever the environment says
+	out = append(out, c08cfg{id: "valid-defaults-only", files: one(&Cfg{Params: []Param{{"p", `%env("HOME", "h")%`}}, Services: []Service{{Name: "s", Value: P("T{}"), Getter: P("GetS")}}})})
 	out = append(out, c08cfg{id: "case-colliding-keys", files: one(&Cfg{
 		Meta:   &Meta{Pkg: P("gen"), Imports: []KV{{"pk", "fx/pk"}, {"PK", "fx/pk2"}, {"Pk", "fx/ab"}}, Functions: []KV{{"fn", "pk.FnStr"}, {"FN", "PK.FnInt"}, {"Fn", "Pk.FnNil"}}},
 		Params: []Param{{"name", "%fn()%"}, {"Name", "%FN()%%gone%"}, {"NAME", "%Fn()%%lost%"}, {"nAme", 4}},
@@ -435,6 +437,18 @@ func init() {
 					_ = pi
 				}
 			}
+			// how the YAML is written (block or flow style, key order of EVERY mapping incl. tag / decorator / service
+			// objects, anchors and aliases, merge keys, explicit tags, CRLF, BOM, document markers) is not an input either
+			for _, cfg := range cfgs {
+				cfg := cfg
+				if cfg.args != nil {
+					continue
+				}
+				w.Case("yaml-presentation/"+cfg.id, func(c *C) {
+					c.Distinct("all", c.ID)
+					w.ShapeInvarianceOK(c, cfg.id, cfg.files(), strings.HasPrefix(cfg.id, "valid") || strings.HasSuffix(cfg.id, "-valid"), cfg.flags...)
+				})
+			}
 			// environment / cwd grid and fresh-process backstop on the real binary
 			envs := [][]string{
 				{"PATH=/usr/bin:/bin"},
@@ -443,6 +457,7 @@ func init() {
 				{"PATH=/usr/bin:/bin", "TERM=xterm-256color", "COLORTERM=truecolor", "CLICOLOR_FORCE=1"},
 				{"PATH=/usr/bin:/bin", "HOME=/nonexistent", "LANG=pl_PL.UTF-8", "TZ=Asia/Tokyo"},
 				{"PATH=/usr/bin:/bin", "p1=shadow", "GONTAINER=1", "GOFLAGS=-mod=vendor", "GODEBUG=randautoseed=0"},
+				{"PATH=/usr/bin:/bin", "GOPACKAGE=storage", "GOFILE=doc.go", "GOLINE=3", "GOARCH=arm64", "GOOS=plan9", "GOROOT=/nonexistent", "DOLLAR=$", "PWD=/elsewhere", "USER=nobody", "COLUMNS=7", "LINES=2"},
 			}
 			for _, cfg := range cfgs {
 				cfg := cfg
